@@ -14,7 +14,7 @@
  * Before every operation the thread passes the harness scheduling point "op".
  * Notes (R lines): "a" alloc called; "r b<k>" returned block k; "r b<k> DUP" returned a block
  * the ownership map still holds; "r NULL <n>" NULL with n blocks in the map; "f b<k>" free called;
- * "f skip"; anomalies "r BADPTR ..", "r b<k> OVERLAP b<j>", "f b<k> CORRUPT".
+ * "f skip"; anomalies "r BADPTR ..", "r b<k> OVERLAP b<j>", "f b<k> CORRUPT", "AUDIT .." (ring audit, below).
  * Output: the event trace, then summary lines "F ...". */
 #include "vdrv.h"
 #include "vsched/vsched.h"
@@ -56,6 +56,47 @@ static long head_size(void)
 {
 	return kind == K_TS ? (long)sizeof(muggle_ts_memory_pool_head_t)
 		: kind == K_SOWR ? (long)sizeof(muggle_sowr_block_head_t) : (long)sizeof(muggle_ring_mpool_block_head_t);
+}
+
+/* Ring audit (ts pool, at most one allocating thread): at every harness point the published part of
+ * the ring, positions [alloc_idx, free_idx) (all of it when the two are equal), must hold pairwise
+ * distinct block pointers none of which is in the ownership map.  This observes the ORDER of the plain
+ * store ptrs[free_idx] = block and the publication of free_idx without touching the repository: a thread
+ * scheduled between a publication and a late slot store finds a stale pointer (a block that is owned, or
+ * one that is in the ring twice).  Plain reads only; no events. */
+static int audit_on;
+static void ts_audit(void)
+{
+	if (kind != K_TS || !audit_on) return;
+	long cap = (long)tsp.capacity, bs = (long)tsp.block_size;
+	long a = (long)tsp.alloc_idx, f = (long)tsp.free_idx;
+	long n = (f + cap - a) % cap;
+	int seenb[64];
+	if (n == 0) n = cap;
+	if (cap > 64) return;
+	memset(seenb, 0, sizeof(seenb));
+	for (long k = 0; k < n; k++) {
+		long pos = (a + k) & (cap - 1);
+		long off = (char *)tsp.ptrs[pos].ptr - (char *)tsp.data;
+		if (off < 0 || off >= bs * cap || off % bs != 0) {
+			anomalies++;
+			vs_note("AUDIT slot %ld holds a pointer outside the pool", pos);
+			return;
+		}
+		int blk = (int)(off / bs);
+		if (seenb[blk]) {
+			anomalies++;
+			vs_note("AUDIT slot %ld holds b%d which is in the published ring twice", pos, blk);
+			return;
+		}
+		seenb[blk] = 1;
+		for (int i = 0; i < nout; i++)
+			if (out[i].blk == blk) {
+				anomalies++;
+				vs_note("AUDIT slot %ld of the published ring holds b%d which thread %d owns", pos, blk, out[i].owner);
+				return;
+			}
+	}
 }
 
 static void *do_alloc(void)
@@ -138,6 +179,7 @@ static void worker(void *arg)
 		int k = 0;
 		while (*s >= '0' && *s <= '9') k = k * 10 + (*s++ - '0');
 		vs_yield_point("op");
+		ts_audit();
 		if (o == 'a') op_alloc(me);
 		else if (o == 'f') op_free(me, 0, k);
 		else if (o == 'o') op_free(me, 1, k);
@@ -200,6 +242,16 @@ static void case_end(void)
 {
 	if (kind == K_NONE || nthreads <= 0 || nthreads > VS_MAXT || cap_req < 1 || cap_req > 64) { printf("F badcase\n"); return; }
 	nout = dups = anomalies = 0;
+	{
+		int na = 0;
+		for (int i = 0; i < nthreads; i++) {
+			const char *q = scripts[i];
+			int has = 0;
+			for (; *q; q++) if (*q == 'a') has = 1;
+			na += has;
+		}
+		audit_on = na <= 1;
+	}
 	vs_reset();
 	vs_set_schedule(sched);
 	int rc;
